@@ -135,3 +135,32 @@ impl Write for ShortSink {
         Ok(())
     }
 }
+
+/// A sink with room for `capacity` bytes, like `&mut [u8]` or a `Cursor` over one: it takes what still fits (a short write)
+/// and from then on accepts nothing — `write` returns `Ok(0)`, not an error.
+pub struct FullSink {
+    capacity: usize,
+    pub data: Vec<u8>,
+    pub zero_writes: usize,
+}
+
+impl FullSink {
+    pub fn new(capacity: usize) -> Self {
+        FullSink { capacity, data: Vec::new(), zero_writes: 0 }
+    }
+}
+
+impl Write for FullSink {
+    fn write(&mut self, buf: &[u8]) -> io::Result<usize> {
+        let room = self.capacity - self.data.len();
+        let n = room.min(buf.len());
+        if n == 0 && !buf.is_empty() {
+            self.zero_writes += 1;
+        }
+        self.data.extend_from_slice(&buf[..n]);
+        Ok(n)
+    }
+    fn flush(&mut self) -> io::Result<()> {
+        Ok(())
+    }
+}
